@@ -155,6 +155,17 @@ func (fr *Frame) applyContract(c *Contract, fn *ssa.Function, key string, args [
 			names[sig.Params().At(i).Name()] = args[i]
 		}
 	}
+	for _, g := range c.Ghosts {
+		gt := fr.eng.parseType(g.Type)
+		cands := fr.ghostCandidates(gt, args)
+		if len(cands) != 1 {
+			o := fr.oblige("stale", name+"/ghost "+g.Name, "false")
+			o.Static = fmt.Sprintf("fail:cannot bind ghost parameter %s %s of %s: %d candidates in scope", g.Name, g.Type, key, len(cands))
+			names[g.Name] = fr.havocVal(gt, "ghost_"+g.Name)
+			continue
+		}
+		names[g.Name] = cands[0]
+	}
 	pre := fr.st.clone()
 	for i, rq := range c.Requires {
 		t, err := fr.evalClause(rq, &evalCtx{fr: fr, st: fr.st, old: fr.st, names: names, callee: key})
